@@ -41,8 +41,9 @@ type Fetch struct {
 }
 
 type Entry struct {
-	Alias string
-	Path  string
+	Alias  string
+	Path   string
+	Single bool // the entry comes from an EntityFetch (one object), not from a BatchEntityFetch
 }
 
 type PathElem struct {
@@ -330,7 +331,7 @@ func dumpTree(n *resolve.FetchTreeNode) (*Tree, error) {
 				if en.Item != nil {
 					p = en.Item.ResponsePath
 				}
-				f.Entries = append(f.Entries, Entry{Alias: en.Alias, Path: p})
+				f.Entries = append(f.Entries, Entry{Alias: en.Alias, Path: p, Single: en.OriginKind == resolve.EntityFetchOriginSingle})
 			}
 		default:
 			return nil, fmt.Errorf("unknown fetch type %T", x)
